@@ -108,7 +108,8 @@ ExecTarget(s, f, a, p, cacheOn, st, t, k, why) ==
   ELSE IF c = "omit" /\ HasOutputs(t)
     THEN [st1 EXCEPT !.failed = @ \cup {t}, !.dec[t] = "exec-fail", !.ws[t] = Absent]
   ELSE
-    LET extAfter == IF t \in CheckT THEN [st.ext EXCEPT ![t] = (c # "noest") \/ @] ELSE st.ext IN
+    \* "noest" leaves the checked condition as it is, "unest" destroys it, every other command establishes it
+    LET extAfter == IF t \in CheckT THEN [st.ext EXCEPT ![t] = IF c = "unest" THEN FALSE ELSE (c # "noest") \/ @] ELSE st.ext IN
     IF t \in CheckT /\ ~extAfter[t]
       THEN [st1 EXCEPT !.failed = @ \cup {t}, !.dec[t] = "exec-fail", !.ext = extAfter,
                        !.ws[t] = IF HasOutputs(t) THEN Produces(s, f, a, t, st.ws) ELSE @]
@@ -203,8 +204,16 @@ EditShift(t) ==
                                                           ELSE (pair[1] :> "sAB") @@ (pair[2] :> "sC")]
   /\ Edited(t)
   /\ UNCHANGED <<src, alias, platform, ws, ext, results, blobs, taint>>
+\* the contents of the two input files are exchanged (same names, same set of contents, different pairing)
+EditSwap(t) ==
+  /\ "EditSwap" \in Acts /\ Step /\ Cardinality(InFiles[t]) = 2 /\ t \notin GlobT
+  /\ LET pair == CHOOSE p \in InFiles[t] \X InFiles[t] : p[1] # p[2] /\ ShiftFirst(p[1], p[2]) IN
+     /\ files[t][pair[1]] # files[t][pair[2]]
+     /\ files' = [files EXCEPT ![t] = (pair[1] :> files[t][pair[2]]) @@ (pair[2] :> files[t][pair[1]])]
+  /\ Edited(t)
+  /\ UNCHANGED <<src, alias, platform, ws, ext, results, blobs, taint>>
 EditCmd(t, c) ==
-  /\ "EditCmd" \in Acts /\ Step /\ c \in CmdMenu /\ c # src[t].cmd /\ (c = "noest" => t \in CheckT)
+  /\ "EditCmd" \in Acts /\ Step /\ c \in CmdMenu /\ c # src[t].cmd /\ (c \in {"noest", "unest"} => t \in CheckT)
   /\ src' = [src EXCEPT ![t].cmd = c] /\ Edited(t)
   /\ UNCHANGED <<files, alias, platform, ws, ext, results, blobs, taint>>
 EditFingerprint(t) ==
@@ -274,7 +283,7 @@ Next ==
   \/ \E t \in Targets :
        \/ \E n \in InFiles[t], c \in {"c0", "c1", "absent"} : EditInput(t, n, c)
        \/ \E c \in CmdMenu : EditCmd(t, c)
-       \/ EditShift(t) \/ EditFingerprint(t) \/ EditOutputs(t) \/ ToggleNoCache(t) \/ Taint(t) \/ BreakExt(t) \/ DropBlob(t)
+       \/ EditShift(t) \/ EditSwap(t) \/ EditFingerprint(t) \/ EditOutputs(t) \/ ToggleNoCache(t) \/ Taint(t) \/ BreakExt(t) \/ DropBlob(t)
        \/ \E how \in {"delete", "modify", "parent", "stale", "notdir"} : Perturb(t, how)
   \/ \E x \in Aliases, t \in Targets : Retarget(x, t)
   \/ ChangePlatform
